@@ -213,6 +213,9 @@ func (s *c16strat) Choose(sc *vsched.Sched, opts []vsched.Transition, nThread, c
 	return s.rec.choose(labels, costs)
 }
 
+// c16TimeFmt selects the msgpack time format of the two transports of the next world (see runC16).
+var c16TimeFmt int
+
 type c16rpc struct {
 	Cmd  interface{}
 	Body []byte
@@ -276,8 +279,10 @@ func runC16(prefix []int, maxInFlight int, timeout time.Duration, fault *connFau
 	}
 	s.Run(func() {
 		mk := func(addr string) *raft.NetworkTransport {
+			// c16TimeFmt bit 0: transport A encodes times in the new msgpack format; bit 1: transport B does
+			newFmt := (addr == "A" && c16TimeFmt&1 != 0) || (addr == "B" && c16TimeFmt&2 != 0)
 			return raft.NewNetworkTransportWithConfig(&raft.NetworkTransportConfig{Stream: w.net.listen(addr), MaxPool: 2, Timeout: timeout,
-				Logger: hclog.NewNullLogger(), MaxRPCsInFlight: maxInFlight})
+				Logger: hclog.NewNullLogger(), MaxRPCsInFlight: maxInFlight, MsgpackUseNewTimeFormat: newFmt})
 		}
 		w.a, w.b = mk("A"), mk("B")
 		vsched.GoNamed("consumer", 7, func() {
@@ -494,9 +499,12 @@ type c16case struct {
 	Depth    int    `json:"depth,omitempty"`
 	InFlight int    `json:"max_in_flight,omitempty"`
 	Prefix   []int  `json:"schedule,omitempty"`
+	TimeFmt  int    `json:"time_format,omitempty"` // bit 0: sender uses the new msgpack time format, bit 1: receiver does
 }
 
 func runC16case(c c16case) (string, *Recorder) {
+	c16TimeFmt = c.TimeFmt
+	defer func() { c16TimeFmt = 0 }()
 	calls := c16calls()
 	switch c.Kind {
 	case "fidelity":
@@ -838,7 +846,7 @@ func enumC16(ctx *CheckCtx, shard, of int) *Stats {
 		if rec != nil {
 			st.Transitions += len(rec.points) + 1
 		}
-		st.Keys[hash64(fmt.Sprint(c.Kind, c.Call, c.Request, c.Offset, c.Depth, c.InFlight, prefix))] = true
+		st.Keys[hash64(fmt.Sprint(c.Kind, c.Call, c.Request, c.Offset, c.Depth, c.InFlight, c.TimeFmt, prefix))] = true
 		if d != "" {
 			return report(c, d)
 		}
@@ -861,6 +869,12 @@ func enumC16(ctx *CheckCtx, shard, of int) *Stats {
 		}
 		if explore(c16case{Kind: "fidelity", Call: ci}, nil) {
 			return st
+		}
+		// rolling upgrade: the two ends disagree on (or both use) the new msgpack time format
+		for tf := 1; tf <= 3; tf++ {
+			if explore(c16case{Kind: "fidelity", Call: ci, TimeFmt: tf}, nil) {
+				return st
+			}
 		}
 		if len(st.Samples) < 2 {
 			b, _ := json.Marshal(map[string]any{"kind": "fidelity", "call": calls[ci].name})
@@ -969,7 +983,7 @@ func withSchedNone(f func()) { f() }
 func init() {
 	enumReplays["enum-nettransport"] = replayC16
 	register(&Check{Prop: "C16", Level: "model_checking",
-		Rule:        "the real NetworkTransport (two instances) runs under the cooperative scheduler over virtual connections: (1) every message variant of every RPC type (three header forms; nil / empty / non-empty / 70 kB entries of all six log types with extensions and timestamps; boundary integers; snapshot bodies of 0, 1, 4095-4097 and 300000 bytes; a handler error) is sent in a sequence of three calls that reuses the pooled connection, and what the handler receives and the caller gets back is compared field by field; (2) for an AppendEntries, a RequestVote and an InstallSnapshot the connection is cut after EVERY byte offset of the request and of the response (quick: every 7th offset for long messages), and the next call on the same transport must be served correctly; (3) a handler that never answers (deadline) followed by another call; (4) pipelines of depth 1-4 with MaxRPCsInFlight 2, 3, 10 under every interleaving of handler answers and timers; (5) pipelines of depth 2-3 (thorough: 2-4) with MaxRPCsInFlight 2, 3 whose Consumer() reader is slow, under every interleaving of handler answers, reader steps and timers, the sender continuing after a failed send: every future that completes without error carries the response to its own request; (6) a pipeline closed while responses are outstanding or unread (every interleaving of answers, the close and timers), followed by plain RequestVote/AppendEntries calls and a second pipeline on the same transport, each of which must get its own response; distinct = distinct (case, schedule)",
+		Rule:        "the real NetworkTransport (two instances) runs under the cooperative scheduler over virtual connections: (1) every message variant of every RPC type (three header forms; nil / empty / non-empty / 70 kB entries of all six log types with extensions and timestamps; boundary integers; snapshot bodies of 0, 1, 4095-4097 and 300000 bytes; a handler error) is sent in a sequence of three calls that reuses the pooled connection, with every combination of old/new msgpack time format on the two transports, and what the handler receives and the caller gets back is compared field by field; (2) for an AppendEntries, a RequestVote and an InstallSnapshot the connection is cut after EVERY byte offset of the request and of the response (quick: every 7th offset for long messages), and the next call on the same transport must be served correctly; (3) a handler that never answers (deadline) followed by another call; (4) pipelines of depth 1-4 with MaxRPCsInFlight 2, 3, 10 under every interleaving of handler answers and timers; (5) pipelines of depth 2-3 (thorough: 2-4) with MaxRPCsInFlight 2, 3 whose Consumer() reader is slow, under every interleaving of handler answers, reader steps and timers, the sender continuing after a failed send: every future that completes without error carries the response to its own request; (6) a pipeline closed while responses are outstanding or unread (every interleaving of answers, the close and timers), followed by plain RequestVote/AppendEntries calls and a second pipeline on the same transport, each of which must get its own response; distinct = distinct (case, schedule)",
 		Assumptions: []string{"virtual connections: reliable ordered byte streams, unbounded buffering, deadlines in virtual time; tcp_transport.go (real sockets) is outside the model", "nil and empty slices are identified (msgpack does not distinguish them); times compared as instants"},
 		Units: func(tier string) []Unit {
 			return []Unit{{Name: "enum-nettransport", Enum: enumC16Wrapper, NoSched: true}}
